@@ -9,9 +9,10 @@ MANIFEST = dict(
     technique='Lean 4 proof over a model regenerated from source by a translator + translation validation + correspondence run',
     design='5/C07',
 )
-GEN = ["Errors", "Timing"]
+GEN = ["Errors"]
+SUPP_GEN = ["Errors"]
+SUPP_THEOREMS = ["c07_aux_code_classes", "c07_default_code_regenerated", "c07_aux_message_total", "c07_err_text_carries"]
 THEOREMS = [
-    "c07_aux_code_classes", "c07_aux_message_total", "c07_err_text_carries",
     "c07_translated",
     "c07_total_classification",
     "c07_permanent_set_as_documented",
